@@ -401,6 +401,7 @@ type scDirResult struct {
 }
 
 type scResult struct {
+	harness  string
 	pp       *productPanic
 	errA     error
 	errB     error
@@ -461,6 +462,13 @@ func runSC(p *scPlan) (res scResult) {
 
 	// ---- data phase
 	for d, m := range []*mitmDir{mAB, mBA} {
+		m.logMu.Lock()
+		nlog := len(m.log)
+		m.logMu.Unlock()
+		if nlog != 1 {
+			res.harness = fmt.Sprintf("expected exactly one sealed frame (AuthSigMessage) per direction during the handshake, saw %d", nlog)
+			return
+		}
 		m.mu.Lock()
 		m.armed = true
 		m.op = p.Dir[d].Tamper
@@ -889,6 +897,9 @@ func scProperty(t *rapid.T) {
 		ev.Violation(t, "panic:"+res.pp.frame, text, "panic in product code: %s", res.pp.msg)
 		return
 	}
+	if res.harness != "" {
+		t.Fatalf("harness: %s\ncase: %s", res.harness, text)
+	}
 	nt := nontrivialSC(p) || res.hsApplied
 	cl := scClasses(p, &res)
 	ev.Case(nt, text, cl...)
@@ -930,6 +941,9 @@ func TestSecretConnExhaustive(t *testing.T) {
 		if res.pp != nil {
 			ev.Violation(t, "panic:"+res.pp.frame, text, "panic in product code: %s", res.pp.msg)
 			return
+		}
+		if res.harness != "" {
+			t.Fatalf("harness: %s\ncase: %s", res.harness, text)
 		}
 		ev.Case(true, text, "sc.exhaustive")
 		n++
